@@ -111,3 +111,12 @@ v('c08-quote', ['C08'], ST, """            if x == '"' as u32 {
 v('c08-hex-width', ['C08'], ST, 'format!("\\\\u{:04x}", x)\n    } else {\n        format!("\\\\u{{{:x}}}", x)\n    }\n}\n\n// Convert to an ASCII', 'format!("\\\\u{:03x}", x)\n    } else {\n        format!("\\\\u{{{:x}}}", x)\n    }\n}\n\n// Convert to an ASCII', 'C08.R2/smt_char_as_string')
 v('c08-add-hex', ['C08'], ST, "self.escape_code = self.escape_code << 4 | hex;", "self.escape_code = self.escape_code << 3 | hex;", 'C08.R3/parser')
 v('c08-flush-order', ['C08'], ST, "        let pending = &self.pending[0..self.pending_idx];", "        let pending = &self.pending[1..self.pending_idx];", 'C08.R3')
+
+# ---- C12
+v('c12-carry', ['C12'], CS, "            triple2.1 = b + 1;", "            triple2.1 = b;", 'C12.R1')
+v('c12-gap', ['C12'], CS, "            result.push(c, a - 1);", "            result.push(c, a);", 'C12.R1')
+v('c12-first-test', ['C12'], CS, "        if b < c {\n            // [a, b] < [c, d]", "        if b <= c {\n            // [a, b] < [c, d]", 'C12.R1')
+v('c12-lost-advance', ['C12'], CS, "            result.push(c, d);\n            triple1.1 = d + 1;\n            triple2 = next_interval(p2, j);", "            result.push(c, d);\n            triple2 = next_interval(p2, j);", 'C12.R1')
+v('c12-loop-cond', ['C12'], CS, "while triple1.2 <= MAX_CHAR || triple2.2 <= MAX_CHAR {", "while triple1.2 <= MAX_CHAR && triple2.2 <= MAX_CHAR {", 'C12.R1')
+v('c12-list-fold', ['C12'], CS, "        result = merge_partitions(&result, p)\n    }\n    result\n}", "        result = merge_partitions(p, p)\n    }\n    result\n}", 'C12.R2')
+v('c12-equal-case', ['C12'], CS, "            // a=c and b=d\n            result.push(a, b);\n            triple1 = next_interval(p1, i);\n            triple2 = next_interval(p2, j);", "            // a=c and b=d\n            result.push(a, b);\n            triple1 = next_interval(p1, i);", 'C12.R1')
